@@ -9,8 +9,8 @@ SRC = os.path.join(HERE, "harness.cpp")
 
 def build(alt6=False, nv=2):
     """alt6: False = 4 alternatives, True = 6 alternatives with duplicates, "T" = 2 trivially destructible alternatives"""
-    tag = "-altT" if alt6 == "T" else "-altA" if alt6 == "A" else ("-alt6" if alt6 else "")
-    defs = ["ALTT=1"] if alt6 == "T" else ["ALTA=1"] if alt6 == "A" else (["ALT6=1"] if alt6 else [])
+    tag = "-altT" if alt6 == "T" else "-altA" if alt6 == "A" else "-altM" if alt6 == "M" else ("-alt6" if alt6 else "")
+    defs = ["ALTT=1"] if alt6 == "T" else ["ALTA=1"] if alt6 == "A" else ["ALTM=1"] if alt6 == "M" else (["ALT6=1"] if alt6 else [])
     return vlib.compile_cxx(SRC, "c05" + tag + "-x%d" % nv, std="c++17", opt="-O1", san="asan-only", defines=defs + ["NVAR=%d" % nv])
 
 
@@ -25,8 +25,8 @@ def build_wide(full):
 def plan(tier):
     # (six alternatives?, number of variants, extra args)
     if tier == "quick":
-        return [(False, 2, []), (True, 2, ["--one-value"]), (False, 3, ["--one-value"]), ("T", 2, []), ("A", 2, [])]
-    return [(False, 2, []), (True, 2, []), (False, 3, []), (True, 3, ["--one-value"]), ("T", 3, []), ("A", 3, [])]
+        return [(False, 2, []), (True, 2, ["--one-value"]), (False, 3, ["--one-value"]), ("T", 2, []), ("A", 2, []), ("M", 2, ["--one-value"])]
+    return [(False, 2, []), (True, 2, []), (False, 3, []), (True, 3, ["--one-value"]), ("T", 3, []), ("A", 3, []), ("M", 2, [])]
 
 
 def run(ctx):
@@ -35,11 +35,11 @@ def run(ctx):
     bins, bw = built[:-1], built[-1]
     dl = str(int(max(60, ctx.time_left() - 30)))
     ctx.run_harness(bw, [], tag="wide")
-    vlib.parallel([(lambda b=b, p=p: ctx.run_harness(b, p[2] + ["--deadline", dl], tag="altT" if p[0] == "T" else "altA" if p[0] == "A" else ("alt6" if p[0] else "alt4"))) for b, p in zip(bins, pl)])
+    vlib.parallel([(lambda b=b, p=p: ctx.run_harness(b, p[2] + ["--deadline", dl], tag="altT" if p[0] == "T" else "altA" if p[0] == "A" else "altM" if p[0] == "M" else ("alt6" if p[0] else "alt4"))) for b, p in zip(bins, pl)])
     ctx.stats["evaluations"] = ctx.stats.get("transitions", 0)
     ctx.stats["distinct_nontrivial"] = ctx.stats.get("states", 0)
     ctx.rule = ("BFS over operation histories of two (and three) xtl::variant<Triv,NT,TH,Big> objects (Triv trivially copyable; NT nothrow-movable tracked; TH tracked with throwing copy, move and assignment; Big tracked 24 bytes) "
-                "the 6-alternative variant<Triv,NT,TH,Big,TH,NT> with duplicate types (index-based access only) and variant<Triv,TT> whose alternatives are all trivially destructible while TT's converting constructor can throw after writing the storage, variant<Triv,TA,TA',TA''> whose tracked alternatives have defaulted (trivial) copy/move assignment but registering constructors/destructors (the registry records which type was constructed at which address), plus a const third variant for 3-way visitation. WIDE part: a variant with 260 distinct alternatives; for the alternatives around 127/128, 255/256 and the ends (quick) / every alternative (thorough): emplace, index, valueless, holds_alternative, get/get_if incl. neighbours and index+256, visit, move (thorough also copy, assignment, swap, relational) and lifetime balance. State = history replayed on a fresh world, "
+                "the 6-alternative variant<Triv,NT,TH,Big,TH,NT> with duplicate types (index-based access only) and variant<Triv,TT> whose alternatives are all trivially destructible while TT's converting constructor can throw after writing the storage, variant<Triv,NT,TM,Big> where TM has a nothrow move assignment but a throwing move constructor (every throw point of move assignment between different alternatives), variant<Triv,TA,TA',TA''> whose tracked alternatives have defaulted (trivial) copy/move assignment but registering constructors/destructors (the registry records which type was constructed at which address), plus a const third variant for 3-way visitation. WIDE part: a variant with 260 distinct alternatives; for the alternatives around 127/128, 255/256 and the ends (quick) / every alternative (thorough): emplace, index, valueless, holds_alternative, get/get_if incl. neighbours and index+256, visit, move (thorough also copy, assignment, swap, relational) and lifetime balance. State = history replayed on a fresh world, "
                 "deduplicated by (index,value,moved-from) of both variants; to fixpoint. Alphabet: emplace<I>(args / copy / move), emplace<T>, converting assignment from lvalue/rvalue of every alternative, "
                 "copy/move assignment incl. self, member and free swap incl. self, copy/move construction into a temporary and in place, recreate. FAULTS: each operation in each state unfaulted (counting K throw points) "
                 "and then with the k-th throwing for every k=1..K. Oracle: fault-free = hand model cross-checked with std::variant in lock-step; faulted = the statement's rule (valueless or a fully constructed alternative "
@@ -56,7 +56,10 @@ def replay(ctx, rec):
     if rec["args"] and rec["args"][0] == "--only":
         ctx.run_harness(build_wide(int(rec["args"][1]) not in WIDE_QUICK), rec["args"], tag="wide")
         return
+    if not rec["args"] or rec["args"][0] == "--xget-only":
+        ctx.run_harness(build(False, 2), ["--xget-only"], tag="c05")
+        return
     inst = rec["args"][1]
-    alt6 = "T" if inst.startswith("altT") else "A" if inst.startswith("altA") else inst.startswith("alt6")
+    alt6 = "T" if inst.startswith("altT") else "A" if inst.startswith("altA") else "M" if inst.startswith("altM") else inst.startswith("alt6")
     nv = 3 if "x3" in inst else 2
     ctx.run_harness(build(alt6, nv), rec["args"], tag="c05")
